@@ -170,9 +170,15 @@ class Validator(SchemaVisitor[ValidationResult]):
                     return result.add_error(ValueValidationError(path, value, schema.props.value))
             else:
                 scale_factor = 10 ** schema.props.precision
-                scaled_actual = round(value * scale_factor)
-                scaled_expected = round(schema.props.value * scale_factor)
-                if not isclose(scaled_expected, scaled_actual, rel_tol=0, abs_tol=0):
+                try:
+                    scaled_actual = round(value * scale_factor)
+                    scaled_expected = round(schema.props.value * scale_factor)
+                except (OverflowError, ValueError):
+                    # inf, nan or a product out of float range can't be scaled
+                    is_equal = bool(value == schema.props.value)
+                else:
+                    is_equal = isclose(scaled_expected, scaled_actual, rel_tol=0, abs_tol=0)
+                if not is_equal:
                     return result.add_error(ValueValidationError(path, value, schema.props.value))
 
         if schema.props.min is not Nil:
